@@ -31,7 +31,7 @@ static Spec random_spec(Rng& r, long c, bool small) {
         // constant offset revpart*(V0-V)/(delta_E*scale): aim at |offset| <= amp
         double dE = s.pqsize / (s.n - 1) * s.pscale;
         s.V = 1e6; s.V0 = r.uni(0, 0.9) * s.V;
-        s.revpart = r.uni(-1, 1) * amp * dE / (s.V - s.V0 + 1);
+        s.revpart = r.uni(-1, 1) * amp * dE / (s.V + s.V0);
         break; }
     case K_DRIFT: {
         int ns = (int)r.range(1, 3);
